@@ -1,7 +1,6 @@
 /-
-T2b: the REPAIRED lexer (`lexG true`: `OP_VERIFY` also rejected after `NumEqual`) accepts only
-canonical serialisations: `lexG true bs = ok ts → tokBytes ts = bs`.  Consequences for the
-lexer that exists are drawn in Thm/C04.lean.
+T2b: the lexer (`lex = lexG true`: `OP_VERIFY` rejected after `Equal`, `NumEqual`, `CheckSig`,
+`CheckMultiSig`) accepts only canonical serialisations: `lexG true bs = ok ts → tokBytes ts = bs`.
 -/
 import MsVerif.Lemmas.LexSerialize
 
@@ -446,173 +445,10 @@ theorem lexB_canon : ∀ (n : Nat) (bs : Bytes) (prev : Option Token) (ts : List
                 · simp only [List.cons_append, List.nil_append]
                   rw [tokBytes_fused hfu, ihb]
 
-/-- T2b for the repaired lexer -/
+/-- T2b -/
 theorem lexStrict_canonical (bs : Bytes) (ts : List Token) (h : lexG true bs = .ok ts) :
     tokBytes ts = bs :=
   (lexB_canon bs.length bs none ts (Nat.le_refl _) h).2
-
-/-! ### the lexer that exists vs. the repaired one -/
-
-set_option hygiene false in
-local macro "op_same" lit:term : tactic => `(tactic|
-  (by_cases hb : b = $lit
-   · subst hb; rfl
-   have hne : ¬ ((b == $lit) = true) := by simpa using hb
-   rw [if_neg hne, if_neg hne]))
-
-/-- only `OP_VERIFY` looks at `strict` and at the previous token -/
-theorem opTokens_ne69 {b : UInt8} (h69 : b ≠ 0x69) (s s' : Bool) (p p' : Option Token) :
-    opTokens s p b = opTokens s' p' b := by
-  unfold opTokens
-  op_same 0x9a
-  op_same 0x9b
-  op_same 0x87
-  op_same 0x88
-  op_same 0x9c
-  op_same 0x9d
-  op_same 0xac
-  op_same 0xad
-  op_same 0xba
-  op_same 0xae
-  op_same 0xaf
-  op_same 0xb2
-  op_same 0xb1
-  op_same 0x6c
-  op_same 0x6b
-  op_same 0x75
-  op_same 0x76
-  op_same 0x93
-  op_same 0x63
-  op_same 0x73
-  op_same 0x64
-  op_same 0x67
-  op_same 0x68
-  op_same 0x92
-  op_same 0x82
-  op_same 0x7c
-  have hne69 : ¬ ((b == 0x69) = true) := by simpa using h69
-  rw [if_neg hne69, if_neg hne69]
-
-theorem opTokens_verify (s : Bool) (p : Option Token) :
-    opTokens s p 0x69 =
-      match p with
-      | some t => if fusesVerify s t then .error .nonMinimalVerify else .ok [.verify]
-      | none => .ok [.verify] := rfl
-
-theorem fuses_mono {t : Token} (h : fusesVerify true t = false) : fusesVerify false t = false := by
-  cases t <;> first | rfl | cases h
-
-theorem instrTokens_strict {prev : Option Token} {ins : Instr} {toks : List Token}
-    (h : instrTokens false prev ins = .ok toks) :
-    instrTokens true prev ins = .ok toks ∨ instrTokens true prev ins = .error .nonMinimalVerify := by
-  cases ins with
-  | push bs => exact .inl h
-  | op b =>
-    simp only [instrTokens] at h ⊢
-    by_cases h69 : b = 0x69
-    · subst h69
-      rw [opTokens_verify] at h ⊢
-      cases prev with
-      | none => exact .inl h
-      | some t =>
-        simp only at h ⊢
-        cases hf : fusesVerify true t with
-        | true => right; simp
-        | false =>
-          left
-          rw [fuses_mono hf] at h
-          simpa using h
-    · rw [opTokens_ne69 h69 true false prev prev]; exact .inl h
-
-theorem instrTokens_strict' {prev : Option Token} {ins : Instr} {toks : List Token}
-    (h : instrTokens true prev ins = .ok toks) : instrTokens false prev ins = .ok toks := by
-  cases ins with
-  | push bs => exact h
-  | op b =>
-    simp only [instrTokens] at h ⊢
-    by_cases h69 : b = 0x69
-    · subst h69
-      rw [opTokens_verify] at h ⊢
-      cases prev with
-      | none => exact h
-      | some t =>
-        simp only at h ⊢
-        cases hf : fusesVerify true t with
-        | true => simp [hf] at h
-        | false => rw [fuses_mono hf]; simpa [hf] using h
-    · rw [opTokens_ne69 h69 false true prev prev]; exact h
-
-/-- whatever the lexer accepts, the repaired lexer accepts with the same tokens — or rejects
-as a non-minimal `VERIFY` -/
-theorem lexB_strict : ∀ (n : Nat) (bs : Bytes) (prev : Option Token) (ts : List Token),
-    bs.length ≤ n → lexB false prev bs = .ok ts →
-    lexB true prev bs = .ok ts ∨ lexB true prev bs = .error .nonMinimalVerify := by
-  intro n
-  induction n with
-  | zero =>
-    intro bs prev ts hl h
-    have : bs = [] := by simpa using hl
-    subst this; exact .inl h
-  | succ n ih =>
-    intro bs prev ts hl h
-    cases bs with
-    | nil => exact .inl h
-    | cons b rest =>
-      rw [lexB_cons] at h ⊢
-      cases hn : nextInstr b rest with
-      | error e => simp [hn] at h
-      | ok p =>
-        obtain ⟨ins, rest'⟩ := p
-        simp only [hn] at h ⊢
-        have hlen := nextInstr_len hn
-        cases ht : instrTokens false prev ins with
-        | error e => simp [ht] at h
-        | ok toks =>
-          simp only [ht] at h
-          rcases instrTokens_strict ht with hs | hs
-          · simp only [hs]
-            cases hr : lexB false (toks.getLast?.or prev) rest' with
-            | error e => simp [hr] at h
-            | ok ts' =>
-              simp only [hr, Except.ok.injEq] at h
-              subst h
-              rcases ih rest' _ ts' (by simp at hl; omega) hr with h1 | h1
-              · left; simp [h1]
-              · right; simp [h1]
-          · right; simp [hs]
-
-/-- and conversely the repaired lexer accepts nothing new -/
-theorem lexB_strict' : ∀ (n : Nat) (bs : Bytes) (prev : Option Token) (ts : List Token),
-    bs.length ≤ n → lexB true prev bs = .ok ts → lexB false prev bs = .ok ts := by
-  intro n
-  induction n with
-  | zero =>
-    intro bs prev ts hl h
-    have : bs = [] := by simpa using hl
-    subst this; exact h
-  | succ n ih =>
-    intro bs prev ts hl h
-    cases bs with
-    | nil => exact h
-    | cons b rest =>
-      rw [lexB_cons] at h ⊢
-      cases hn : nextInstr b rest with
-      | error e => simp [hn] at h
-      | ok p =>
-        obtain ⟨ins, rest'⟩ := p
-        simp only [hn] at h ⊢
-        have hlen := nextInstr_len hn
-        cases ht : instrTokens true prev ins with
-        | error e => simp [ht] at h
-        | ok toks =>
-          simp only [ht] at h
-          simp only [instrTokens_strict' ht]
-          cases hr : lexB true (toks.getLast?.or prev) rest' with
-          | error e => simp [hr] at h
-          | ok ts' =>
-            simp only [hr, Except.ok.injEq] at h
-            subst h
-            simp [ih rest' _ ts' (by simp at hl; omega) hr]
 
 end LexL
 end MsVerif
